@@ -2,6 +2,7 @@ From Coq Require Import List NArith ZArith Lia Bool.
 Import ListNotations.
 From MSP Require Import Model.LzssBase.
 Local Open Scope N_scope.
+Local Notation "x <- p ;; q" := (bind p (fun x => q)) (at level 61, p at next level, right associativity).
 
 Definition W := 12%nat.
 Definition FILL : byte := 32.
